@@ -79,7 +79,8 @@ func Run(ctx *vrun.Ctx, prop string) error {
 		}
 	case "C17":
 		models = []ModelCfg{
-			{Name: "headers3", N: 3, Works: "{1}", Flaws: `{"context","connect"}`, Headers: true, Graph: true, MaxPaths: 3000},
+			{Name: "headers3", N: 3, Works: "{1}", Flaws: `{"context","connect"}`, Headers: true, Graph: true, MaxPaths: 2500},
+			{Name: "hdrmanual3", N: 3, Works: "{1}", Flaws: `{}`, Headers: true, Manual: 1, Graph: true, MaxPaths: 2000},
 		}
 		if ctx.Thorough {
 			models = []ModelCfg{
